@@ -59,6 +59,7 @@ struct Op
     uint64_t nphase2 = 3, nblock2 = 1;
     bool buffer2 = false;
     int dst2 = D_OTHER;
+    bool inv_via_ntt = false; // inverse requested through NTT(..., inverse = true) instead of INTT()
     int input = IN_RAND;
     uint64_t input_seed = 1;
     // merkle
@@ -78,6 +79,7 @@ struct Op
     bool shortfall = false;
     bool dirty_heap = false;
     bool dirty_bufs = false;
+    bool main_first = false; // simulated execution before the one-member reference (cold-start runs)
     uint64_t garbage_seed = 0;
     std::vector<sim::Switch> schedule; // explicit (ST_REPLAY)
 
@@ -104,6 +106,7 @@ struct GenLimits
     uint64_t max_copy = 5000;
     bool avx512 = false;       // build has the AVX-512 variants
     bool coarse = false;       // ASan flavour: only coarse scheduling exists
+    bool cold = false;         // cold-start run: one run per process, simulated execution before the reference
 };
 
 // profile is the property id ("C03", ...); everything is drawn from `seed`
